@@ -115,6 +115,7 @@ type Enc struct {
 	expArgs        []Term
 	debugNames     map[string][]*ssa.DebugRef
 	typedSeen      map[string]bool
+	hookHit        map[string]bool
 }
 
 func (p *Prog) newEnc(fn *ssa.Function, fc *FuncContract, key string) *Enc {
@@ -126,7 +127,7 @@ func (p *Prog) newEnc(fn *ssa.Function, fc *FuncContract, key string) *Enc {
 		loops: map[*ssa.BasicBlock]*loopInfo{}, localCells: map[*ssa.Alloc]bool{},
 		counters: map[string]int{}, deferReg: map[*ssa.Defer]Term{}, callOrd: map[string]int{},
 		abstracted: map[string]bool{}, assumed: map[string]bool{}, rndSeen: map[string]bool{}, fnIDs: map[string]int{},
-		typedSeen: map[string]bool{}, usedContracts: map[string]bool{}, deferCallee: map[*ssa.Defer]Term{}, deferArgs: map[*ssa.Defer][]Term{}}
+		typedSeen: map[string]bool{}, hookHit: map[string]bool{}, usedContracts: map[string]bool{}, deferCallee: map[*ssa.Defer]Term{}, deferArgs: map[*ssa.Defer][]Term{}}
 	sc.Declare("TIME_ZERO", SInt)
 	sc.Assert(Eq(T("TIME_ZERO", SInt), IntLitS("-6795364578871345152"))) // any fixed value distinct from real clock readings
 	return e
